@@ -257,15 +257,23 @@ pub async fn run_history(h: &History) -> Vec<(String, String)> {
                 let batch: Vec<u8> = big.iter().cycle().take(big.len() * 64).copied().collect();
                 if let Some(s) = conns[*i].stream.as_mut() {
                     let mut blocked = false;
-                    let mut strikes = 0;
-                    for _ in 0..200_000 {
+                    let started = std::time::Instant::now();
+                    while started.elapsed() < Duration::from_secs(30) {
                         match tokio::time::timeout(Duration::from_millis(250), s.write_all(&batch)).await {
-                            Ok(Ok(())) => strikes = 0,
+                            Ok(Ok(())) => {}
                             Ok(Err(_)) => break,
                             Err(_) => {
-                                // confirmed only if a second attempt makes no progress either
-                                strikes += 1;
-                                if strikes == 2 {
+                                // our write made no progress. That alone also happens when the server is
+                                // merely slow (loaded machine): the session is blocked in its own write
+                                // only if the server's send queue is full, its input unread, and both
+                                // stay exactly as they are
+                                let mut samples = vec![server_queues(addr)];
+                                for _ in 0..3 {
+                                    tokio::time::sleep(Duration::from_millis(100)).await;
+                                    samples.push(server_queues(addr));
+                                }
+                                let (tx0, rx0) = samples[0];
+                                if tx0 >= 32 * 1024 && rx0 > 0 && samples.iter().all(|q| *q == (tx0, rx0)) {
                                     blocked = true;
                                     break;
                                 }
@@ -568,14 +576,19 @@ pub fn check_c15(tier: &str) -> i32 {
     let results: Arc<std::sync::Mutex<Vec<(usize, Vec<(String, String)>)>>> = Arc::new(std::sync::Mutex::new(vec![]));
     let hist = Arc::new(histories);
     rt().block_on(async {
-        let sem = Arc::new(tokio::sync::Semaphore::new(24));
+        let sem = Arc::new(tokio::sync::Semaphore::new(20));
+        let stall_sem = Arc::new(tokio::sync::Semaphore::new(8));
         let mut joins = vec![];
         for i in 0..hist.len() {
             let hist = hist.clone();
             let results = results.clone();
             let sem = sem.clone();
+            let stall_sem = stall_sem.clone();
             joins.push(tokio::spawn(async move {
-                let _p = sem.acquire().await.unwrap();
+                // the verdict of a history with a stall depends on a session being really blocked in
+                // its write: those run few at a time
+                let has_stall = hist[i].events.iter().any(|e| matches!(e, SEv::Stall(_)));
+                let _p = if has_stall { stall_sem.acquire().await.unwrap() } else { sem.acquire().await.unwrap() };
                 let mut r = run_history(&hist[i]).await;
                 if !r.is_empty() && !r[0].0.starts_with("server-handle-blocked") {
                     // real sockets, real scheduler: a verdict must reproduce before it is reported
@@ -637,6 +650,100 @@ pub fn check_c15(tier: &str) -> i32 {
     }
     rep.assumptions.push("the kernel scheduler is real: histories are lock-step (each event is followed by a probe of every connection), a failing history must fail three times in a row to be reported".into());
     rep.finish()
+}
+
+/// bytes the kernel holds in the (send, receive) queues of the server's established sockets (the
+/// listener port is unique per history): a session blocked in `write` has a full, unchanging send
+/// queue and leaves its input unread
+fn server_queues(addr: std::net::SocketAddr) -> (u64, u64) {
+    let want = match addr {
+        std::net::SocketAddr::V4(a) => {
+            let o = a.ip().octets();
+            format!("{:02X}{:02X}{:02X}{:02X}:{:04X}", o[3], o[2], o[1], o[0], a.port())
+        }
+        _ => return (0, 0),
+    };
+    let mut total = (0u64, 0u64);
+    if let Ok(text) = std::fs::read_to_string("/proc/net/tcp") {
+        for line in text.lines().skip(1) {
+            let f: Vec<&str> = line.split_whitespace().collect();
+            // sl local rem st tx:rx ...; 01 = ESTABLISHED
+            if f.len() > 4 && f[1] == want && f[3] == "01" {
+                if let Some((tx, rx)) = f[4].split_once(':') {
+                    total.0 += u64::from_str_radix(tx, 16).unwrap_or(0);
+                    total.1 += u64::from_str_radix(rx, 16).unwrap_or(0);
+                }
+            }
+        }
+    }
+    total
+}
+
+/// C20 over the production TCP / TLS server task: bursts of decode-level changes (more than a
+/// session's command queue holds) at every position of short connect / request scripts. Every
+/// request must still be answered, by the same session, with the same bytes.
+pub fn decode_burst_phase() -> Stats {
+    let mut histories: Vec<History> = vec![];
+    for tls in [false, true] {
+        let scripts: Vec<Vec<SEv>> = vec![
+            vec![SEv::Connect, SEv::Request(0), SEv::Request(0)],
+            vec![SEv::Connect, SEv::Connect, SEv::Request(0), SEv::Request(1)],
+            vec![SEv::Connect, SEv::HalfFrame(0), SEv::Request(0)],
+            vec![SEv::Connect, SEv::Connect, SEv::Connect, SEv::Request(2), SEv::Request(1), SEv::Request(0)],
+        ];
+        for script in scripts {
+            for pos in 0..=script.len() {
+                for burst in [SEv::SetDecode, SEv::SetDecode9] {
+                    let mut ev = script.clone();
+                    ev.insert(pos, burst);
+                    histories.push(History { max_sessions: 3, tls, events: ev });
+                }
+            }
+        }
+    }
+    let hist = Arc::new(histories);
+    let results: Arc<std::sync::Mutex<Vec<(usize, Vec<(String, String)>)>>> = Arc::new(std::sync::Mutex::new(vec![]));
+    rt().block_on(async {
+        let sem = Arc::new(tokio::sync::Semaphore::new(8));
+        let mut joins = vec![];
+        for i in 0..hist.len() {
+            let (hist, results, sem) = (hist.clone(), results.clone(), sem.clone());
+            joins.push(tokio::spawn(async move {
+                let _p = sem.acquire().await.unwrap();
+                let mut r = run_history(&hist[i]).await;
+                if !r.is_empty() && !r[0].0.starts_with("server-handle-blocked") {
+                    let r2 = run_history(&hist[i]).await;
+                    let r3 = run_history(&hist[i]).await;
+                    if r2.is_empty() || r3.is_empty() {
+                        r = vec![];
+                    }
+                }
+                results.lock().unwrap().push((i, r));
+            }));
+        }
+        for j in joins {
+            let _ = j.await;
+        }
+    });
+    let mut st = Stats::default();
+    let mut res = results.lock().unwrap().clone();
+    res.sort_by_key(|x| x.0);
+    for (i, problems) in res {
+        let h = &hist[i];
+        st.evaluations += 1;
+        st.traces += 1;
+        st.transitions += h.events.len() as u64;
+        st.class(if h.events.contains(&SEv::SetDecode9) { "server-task:decode-burst" } else { "server-task:decode-change" });
+        st.observe(&(h.tls, format!("{:?}", h.events), problems.len()));
+        for (sig, desc) in problems {
+            st.violation(Violation {
+                signature: format!("decode-change-disturbs-server-task:{sig}"),
+                summary: format!("tls={} history {:?}: {desc}", h.tls, h.events),
+                replay: json!({"kind": "c15", "max_sessions": h.max_sessions, "tls": h.tls, "events": h.events}),
+            });
+        }
+    }
+    st
 }
 
 /// make signatures specific enough to tell different defects apart
